@@ -145,8 +145,8 @@ def compare_fd(spec, fd, step, case_text, extra_cls=()):
         if max(abs(c) for c in F[a]) > 1e-9:
             nforce += 1
         for d in range(3):
-            ep, em, ep2, em2 = fd["D"][a][d]
-            if not all(math.isfinite(x) for x in (ep, em, ep2, em2)):
+            ep, em, ep2, em2, ep4, em4 = fd["D"][a][d]
+            if not all(math.isfinite(x) for x in (ep, em, ep2, em2, ep4, em4)):
                 illcond = True
                 continue
             # kink detector: for a differentiable energy the one-sided slopes differ by h*f'' (halves with h);
@@ -156,11 +156,21 @@ def compare_fd(spec, fd, step, case_text, extra_cls=()):
             if abs(k1) > 1e-5 * max(1.0, fmax) and abs(k2) > 0.75 * abs(k1):
                 singular = True
                 continue
+            # central differences at h, h/2, h/4.  Two pairs of step sizes: an energy that is C1 but not C2 at the base point (a
+            # wall placed exactly at the value) makes the error first order in h, and with a single pair that term can cancel
+            # against the second-order term of another bias in the error estimate (seen once in 10^5 cases); it cannot cancel in
+            # both pairs.  The extrapolation uses the two smallest steps, the tolerance the larger of the two estimates.
             Dh = (ep - em) / (2 * h)
             Dh2 = (ep2 - em2) / h
-            Dr = (4 * Dh2 - Dh) / 3.0
-            est = abs(Dh2 - Dh)
-            roundoff = 1e-12 * max(abs(E0), abs(ep), 1e-3) / h
+            Dh4 = (ep4 - em4) / (0.5 * h)
+            Dr = (4 * Dh4 - Dh2) / 3.0
+            est = max(abs(Dh4 - Dh2), 0.25 * abs(Dh2 - Dh))
+            # measured rounding noise of the energy (tiny displacements, see the fd command) enters every difference quotient
+            noise = fd["N"][3 * a + d] if "N" in fd else 0.0
+            roundoff = 4e-12 * max(abs(E0), abs(ep), 1e-3) / h + 16.0 * noise / h
+            if roundoff > 1e-4 * max(1.0, fmax):
+                illcond = True
+                continue
             if est > 1e-4 * max(1.0, fmax):
                 illcond = True
                 continue
@@ -212,7 +222,7 @@ def sample_view(spec):
 
 PARTS = {
     "restraints": {"strategy": spec_restraints, "check": check_restraints,
-                   "examples": {"quick": 3200, "thorough": 60000}, "sample": sample_view},
+                   "examples": {"quick": 6400, "thorough": 60000}, "sample": sample_view},
 }
 
 
@@ -267,7 +277,9 @@ def check_history(spec, ctx):
     if kind == "abmd":
         # finish where the variable is lowest, so that the ratchet (which follows the maximum) pulls
         order.sort(key=lambda t: -xs[t][0])
-        if xs[order[0]][0] - xs[order[-1]][0] < 1e-6:
+        # the probes must stay below the ratchet, or they move it (by design): the gap has to exceed the largest probe displacement
+        # of the variable, h * |gradient| with h <= 1e-3
+        if xs[order[0]][0] - xs[order[-1]][0] < 1e-2:
             return Outcome(discard=True)
         if cv.get("periodic"):
             return Outcome(discard=True)
@@ -312,9 +324,11 @@ def check_history(spec, ctx):
     last = dict(r2.of("step")[-1])
     last["E"] = fd[0]["E0"]
     out = compare_fd(sp2, fd[0], last, case2, extra_cls=("history",))
+    if kind == "abmd" and not out.ok and out.sig == "state_drift" and xs[order[0]][0] - xs[order[-1]][0] < 100.0 * fd[0]["h"]:
+        return Outcome(discard=True)      # gradient > 10: a probe may have crossed the ratchet
     out.strata = list(out.strata or []) + ["hist:" + kind]
     return out
 
 
-PARTS["history"] = {"strategy": spec_history, "check": check_history, "examples": {"quick": 1200, "thorough": 24000}, "sample": sample_view}
+PARTS["history"] = {"strategy": spec_history, "check": check_history, "examples": {"quick": 2400, "thorough": 24000}, "sample": sample_view}
 REQUIRED_STRATA = {"all": ["history:hist:meta_nogrid", "history:hist:opes", "history:hist:abmd"]}
